@@ -284,3 +284,42 @@ impl Emitter for ExtentEmitter {
         true
     }
 }
+
+/// An oracle context that overrides ALL three open_* methods and records which one was used (1 root, 2 push,
+/// 3 disabled) together with the value it was given under "p": a forwarding / erased context must dispatch each
+/// of them to the same method of the inner context.
+pub struct KindCtxt {
+    pub opened: Cell<u8>,
+    pub p: Cell<Option<u64>>,
+    pub amb: [(&'static str, u64); 1],
+}
+impl KindCtxt {
+    pub fn new() -> Self {
+        KindCtxt { opened: Cell::new(0), p: Cell::new(None), amb: [("amb", 1)] }
+    }
+}
+impl Ctxt for KindCtxt {
+    type Current = [(&'static str, u64); 1];
+    type Frame = PhaseFrame;
+    fn open_root<P: Props>(&self, props: P) -> PhaseFrame {
+        self.opened.set(1);
+        self.p.set(props.pull::<u64, _>("p"));
+        PhaseFrame(77)
+    }
+    fn open_push<P: Props>(&self, props: P) -> PhaseFrame {
+        self.opened.set(2);
+        self.p.set(props.pull::<u64, _>("p"));
+        PhaseFrame(77)
+    }
+    fn open_disabled<P: Props>(&self, props: P) -> PhaseFrame {
+        self.opened.set(3);
+        self.p.set(props.pull::<u64, _>("p"));
+        PhaseFrame(77)
+    }
+    fn enter(&self, _: &mut PhaseFrame) {}
+    fn with_current<R, F: FnOnce(&Self::Current) -> R>(&self, with: F) -> R {
+        with(&self.amb)
+    }
+    fn exit(&self, _: &mut PhaseFrame) {}
+    fn close(&self, _: PhaseFrame) {}
+}
